@@ -42,4 +42,44 @@ Section S.
     eps <= Rabs (vp1 - vp0) -> eps <= Rabs (vp2 - vp0) -> eps <= Rabs (vp2 - vp1) ->
     deriv3 f0 f1 f2 df0 df1 df2 vp0 vp1 vp2 m0 m1 m2 m3 m4 m5 m6 m7 m8 eps =
     Some (DK3 m0 m1 m2 m3 m4 m5 m6 m7 m8 df0 df1 df2 ((f0 - f1) / (vp0 - vp1)) ((f0 - f2) / (vp0 - vp2)) ((f1 - f2) / (vp1 - vp2))).
+  (* ---- 3D derivative, branches taken when eigenvalues are closer than eps (order of the tests as in the code:
+     triple, then pairs (0,1), (0,2), (1,2)).  Each leaf is stated as the Daleckii-Krein tensor DK3 of MERGED eigen-data:
+     the close eigenvalues are replaced by their mean vpm, with the mean of the function values as f(vpm) and the mean of
+     the derivative values as f'(vpm) (this is what the code computes, for any f0..df2, also when the close
+     eigenvalues are not exactly equal); the coefficient of the pair of coinciding eigenvalues is the limit f'(vpm) of the
+     divided difference.  The `_exact` corollaries: eigenvalues exactly equal and f, f' values consistent (f_i = f_j,
+     df_i = df_j, as for f_i = f(vp_i)) => the leaf is the Daleckii-Krein tensor of the original data with the
+     divided difference replaced by its limit f' on the coinciding pair(s). *)
+  Definition deriv3_call := deriv3 f0 f1 f2 df0 df1 df2 vp0 vp1 vp2 m0 m1 m2 m3 m4 m5 m6 m7 m8 eps.
+  Definition deriv3_triple_ok : Prop :=
+    Rabs (vp0 - vp1) < eps -> Rabs (vp0 - vp2) < eps ->
+    deriv3_call = Some (scall ((df0 + df1 + df2) / 3) Id6) /\
+    (ortho_cols m0 m1 m2 m3 m4 m5 m6 m7 m8 ->
+     let dfm := (df0 + df1 + df2) / 3 in
+     deriv3_call = Some (DK3 m0 m1 m2 m3 m4 m5 m6 m7 m8 dfm dfm dfm dfm dfm dfm)).
+  Definition deriv3_triple_exact_ok : Prop :=
+    ortho_cols m0 m1 m2 m3 m4 m5 m6 m7 m8 -> 0 < eps -> vp0 = vp1 -> vp0 = vp2 -> df0 = df1 -> df0 = df2 ->
+    deriv3_call = Some (DK3 m0 m1 m2 m3 m4 m5 m6 m7 m8 df0 df1 df2 df0 df0 df1).
+  Definition deriv3_pair01_ok : Prop :=
+    Rabs (vp0 - vp1) < eps -> ~ Rabs (vp0 - vp2) < eps ->
+    let vpm := (vp0 + vp1) / 2 in let fm := (f0 + f1) / 2 in let dfm := (df0 + df1) / 2 in
+    deriv3_call = Some (DK3 m0 m1 m2 m3 m4 m5 m6 m7 m8 dfm dfm df2 dfm ((fm - f2) / (vpm - vp2)) ((fm - f2) / (vpm - vp2))).
+  Definition deriv3_pair02_ok : Prop :=
+    ~ Rabs (vp0 - vp1) < eps -> Rabs (vp0 - vp2) < eps ->
+    let vpm := (vp0 + vp2) / 2 in let fm := (f0 + f2) / 2 in let dfm := (df0 + df2) / 2 in
+    deriv3_call = Some (DK3 m0 m1 m2 m3 m4 m5 m6 m7 m8 dfm df1 dfm ((fm - f1) / (vpm - vp1)) dfm ((fm - f1) / (vpm - vp1))).
+  Definition deriv3_pair12_ok : Prop :=
+    ~ Rabs (vp0 - vp1) < eps -> ~ Rabs (vp0 - vp2) < eps -> Rabs (vp1 - vp2) < eps ->
+    let vpm := (vp1 + vp2) / 2 in let fm := (f1 + f2) / 2 in let dfm := (df1 + df2) / 2 in
+    deriv3_call = Some (DK3 m0 m1 m2 m3 m4 m5 m6 m7 m8 df0 dfm dfm ((f0 - fm) / (vp0 - vpm)) ((f0 - fm) / (vp0 - vpm)) dfm).
+  (* exactly equal pairs *)
+  Definition deriv3_pair01_exact_ok : Prop :=
+    0 < eps -> vp0 = vp1 -> f0 = f1 -> df0 = df1 -> eps <= Rabs (vp0 - vp2) ->
+    deriv3_call = Some (DK3 m0 m1 m2 m3 m4 m5 m6 m7 m8 df0 df1 df2 df0 ((f0 - f2) / (vp0 - vp2)) ((f1 - f2) / (vp1 - vp2))).
+  Definition deriv3_pair02_exact_ok : Prop :=
+    0 < eps -> vp0 = vp2 -> f0 = f2 -> df0 = df2 -> eps <= Rabs (vp0 - vp1) ->
+    deriv3_call = Some (DK3 m0 m1 m2 m3 m4 m5 m6 m7 m8 df0 df1 df2 ((f0 - f1) / (vp0 - vp1)) df0 ((f1 - f2) / (vp1 - vp2))).
+  Definition deriv3_pair12_exact_ok : Prop :=
+    0 < eps -> vp1 = vp2 -> f1 = f2 -> df1 = df2 -> eps <= Rabs (vp0 - vp1) ->
+    deriv3_call = Some (DK3 m0 m1 m2 m3 m4 m5 m6 m7 m8 df0 df1 df2 ((f0 - f1) / (vp0 - vp1)) ((f0 - f2) / (vp0 - vp2)) df1).
 End S.
